@@ -7,7 +7,8 @@ V = "/verif"
 def sh(cmd, **kw): return subprocess.run(cmd, shell=True, capture_output=True, text=True, **kw)
 def main():
     pid, x = sys.argv[1], sys.argv[2]; tier = sys.argv[3] if len(sys.argv) > 3 else "quick"; checks = sys.argv[4:] or [pid]
-    src = "/tmp/seed/%s/SEED/%s" % (pid, x); dst = "%s/seeded/%s-%s" % (V, pid, x)
+    root = os.environ.get("SEED_ROOT", "/tmp/seed"); tag = os.environ.get("SEED_TAG", "")  # second round: SEED_ROOT=/tmp/seed2 SEED_TAG=R2
+    src = "%s/%s/SEED/%s" % (root, pid, x); dst = "%s/seeded/%s-%s%s" % (V, pid, tag, x)
     if os.path.isdir(src):
         os.makedirs(dst, exist_ok=True)
         for n in ("patch.diff", "meta.json"): shutil.copy(os.path.join(src, n), os.path.join(dst, n))
